@@ -44,7 +44,7 @@ def build_model(rng):
     f = {i: round(rng.uniform(-1, 1), 3) for i in dep}
     for a in dep:
         for b in dep:
-            if a < b and rng.random() < 0.7 and f[a] * f[b] != 0.0:
+            if a < b and f[a] * f[b] != 0.0:      # every pair: r = f f^T off the diagonal is PSD only when complete
                 src.append('set_correlation(%r, x%d, x%d)' % (f[a] * f[b], a, b))
     def expr():
         terms = []
@@ -93,9 +93,64 @@ def check_model_src(src):
             problems.append(('cov(elementary,result)', g1, g2, float(ex)))
     return problems
 
+def check_complex_case(rng):
+    """uncertain complex numbers: declared 4-element correlation is returned (both orders), variance() is the 2x2
+    matrix of the (real, imag) pair and agrees with get_covariance of the components, also for conjugates and after
+    earlier reads"""
+    from GTC import core
+    new_context(19)
+    src = []
+    df = rng.choice(['inf', '5', '8'])
+    if df == 'inf' and rng.random() < 0.5:
+        src += ['z1 = ucomplex(%r, (%r, %r), independent=False)' % (complex(1, 2), 0.5, 0.25),
+                'z2 = ucomplex(%r, (%r, %r), independent=False)' % (complex(-1, 0.5), 0.3, 0.7)]
+    else:
+        src += ['z1, z2 = multiple_ucomplex([%r, %r], [(%r, %r), (%r, %r)], %s)' % (complex(1, 2), complex(-1, 0.5), 0.5, 0.25, 0.3, 0.7, df)]
+    r4 = tuple(round(rng.uniform(-0.4, 0.4), 2) for _ in range(4))
+    src.append('set_correlation(%r, z1, z2)' % (r4,))
+    rz = round(rng.uniform(-0.8, 0.8), 2)
+    src.append('set_correlation(%r, z1)' % rz)
+    if rng.random() < 0.5: src.append('_ = z1.v; _ = z1.r; _ = repr(z1)')
+    src += ['w = z1.conjugate()', 'y = z1 + 1j*z2', 'p = z1*z2']
+    ns = {}
+    try:
+        exec('from GTC import *\n' + '\n'.join(src), ns)
+    except Exception as ex:
+        return None
+    z1, z2, w, y, p = ns['z1'], ns['z2'], ns['w'], ns['y'], ns['p']
+    problems = []
+    g = core.get_correlation(z1, z2)
+    if tuple(g) != r4: problems.append(('get_correlation(z1,z2)', tuple(g), r4))
+    g2 = core.get_correlation(z2, z1)
+    if tuple(g2) != (r4[0], r4[2], r4[1], r4[3]): problems.append(('get_correlation(z2,z1)', tuple(g2), r4))
+    for pair, want in [((z1.real, z2.real), r4[0]), ((z1.real, z2.imag), r4[1]), ((z1.imag, z2.real), r4[2]), ((z1.imag, z2.imag), r4[3]),
+                       ((z1.real, z1.imag), rz)]:
+        got = core.get_correlation(*pair)
+        if got != want: problems.append(('component correlation', got, want))
+    for name, q in (('z1', z1), ('conj', w), ('y', y), ('p', p)):
+        v = core.variance(q)
+        crr = core.get_covariance(q.real, q.real); cri = core.get_covariance(q.real, q.imag); cii = core.get_covariance(q.imag, q.imag)
+        sc = abs(crr) + abs(cii) + 1e-300
+        if abs(v.rr - crr) > 1e-12 * sc or abs(v.ii - cii) > 1e-12 * sc or abs(v.ri - cri) > 1e-12 * sc or abs(v.ir - cri) > 1e-12 * sc:
+            problems.append(('variance(%s) vs component covariances' % name, tuple(v), (crr, cri, cri, cii)))
+        leaves = [z1.real, z1.imag, z2.real, z2.imag]
+        ex = (lpu_exact(q.real, q.real, leaves), lpu_exact(q.real, q.imag, leaves), lpu_exact(q.imag, q.imag, leaves))
+        if abs(Fraction(crr) - ex[0]) > 1e-9 * sc or abs(Fraction(cri) - ex[1]) > 1e-9 * sc or abs(Fraction(cii) - ex[2]) > 1e-9 * sc:
+            problems.append(('LPU of %s' % name, (crr, cri, cii), tuple(float(e) for e in ex)))
+    if problems:
+        return {'python': ['from GTC import *'] + src, 'problems': repr(problems)[:700], 'complex': True}
+    return None
+
 def search(rng, tier, broken):
     n = 400 if tier == 'quick' else 6000
     for i in range(n):
+        if i % 4 == 3:
+            try:
+                f = check_complex_case(rng)
+            except Exception as ex:
+                f = None
+            if f: return {'tried': i + 1, 'failing': f}
+            continue
         src = build_model(rng)
         try:
             p = check_model_src(src)
@@ -119,6 +174,8 @@ def is_known(f):
 def replay(payload):
     print(json.dumps(payload.get('broken'), indent=1)[:3000])
     f = payload.get('failing_input')
+    if f and f.get('complex'):
+        print('complex case; re-run the listed python lines and compare the listed problems'); return 1
     if f and 'python' in f:
         p = check_model_src(f['python'])
         print('replayed on the implementation:', 'STILL FAILS %r' % (p,) if p else 'passes now')
